@@ -1165,8 +1165,12 @@ impl LZDiff {
             }
         }
 
-        // Remaining bases are literals
-        est_cost += text_size - i;
+        // Remaining bases are literals.
+        // `i` is advanced by len_bck + len_fwd after a back-extended match (matching C++ AGC's
+        // Estimate), so it can overshoot text_size; the C++ code computes this in wrapping
+        // uint32 arithmetic, which is what the release build did implicitly. Make it explicit so
+        // that builds with overflow checks compute the same estimate instead of panicking.
+        est_cost = est_cost.wrapping_add(text_size.wrapping_sub(i));
 
         est_cost
     }
